@@ -545,15 +545,10 @@ func (s *Sched) Panics() []string {
 	return out
 }
 
-// Done reports whether a task finished.
-func (t *Task) Done() bool {
-	s := Active
-	if s != nil {
-		s.mu.Lock()
-		defer s.mu.Unlock()
-	}
-	return t.state == stDone
-}
+// Done reports whether a task finished. It takes no lock so that it can be
+// used inside predicates (which the scheduler evaluates while holding its own
+// lock); the state is only ever read while the task is parked or gone.
+func (t *Task) Done() bool { return t.state == stDone }
 
 // ShortStack trims a panic stack to the frames below the panic call.
 func ShortStack(st string, max int) string {
